@@ -1100,6 +1100,355 @@ Section WriterFacts.
     - exists i. split; [lia|]. destruct HW1 as [HI _]. apply DInvG_DInv in HI. apply recover_DInv in HI as [H _]. exact H.
   Qed.
 
+  (* ---- checkpoint *)
+  Notation snap_file := (snap_file ser_hdr).
+
+  Lemma snap_file_valid : forall mem ts c,
+    let data := enc_map mem in
+    let h0 := mkHdr WAL_VERSION ts c (len mem) (len data) [] in
+    let h := mkHdr WAL_VERSION ts c (len mem) (len data) (mac (snap_fields h0 data)) in
+    exists st', snap_valid (snap_file h data) = Some (h, st') /\ st' ≈ mem /\ h_txid h = c.
+  Proof.
+    intros mem ts c data h0 h. destruct (Hmap mem) as [st' [Hd He]]. exists st'. split; [|split; [exact He | reflexivity]].
+    unfold Wal.snap_valid, Wal.split_snap, Wal.snap_file.
+    destruct (frame_head (ser_hdr h) data (Hhdr_small h)) as [Hv Hk].
+    assert (Hl : len (frame (ser_hdr h) ++ data) = 4 + len (ser_hdr h) + len data) by (rewrite len_app, frame_len; lia).
+    rewrite Hl. replace (4 + len (ser_hdr h) + len data <? 4) with false by (symmetry; apply N.ltb_ge; lia).
+    rewrite Hv, Hk. rewrite len_app.
+    replace (len (ser_hdr h) + len data <? len (ser_hdr h)) with false by (symmetry; apply N.ltb_ge; lia).
+    replace (N.to_nat (len (ser_hdr h))) with (length (ser_hdr h)) by (unfold len; rewrite Nat2N.id; reflexivity).
+    rewrite firstn_app_exact, skipn_app_exact by reflexivity.
+    rewrite Hhdr. change (dec_map data) with (dec_map (enc_map mem)). rewrite Hd.
+    replace (snap_fields h data) with (snap_fields h0 data) by reflexivity.
+    cbn [h_tag h]. rewrite bytes_eqb_refl. reflexivity.
+  Qed.
+
+  Lemma alookup_aupdate : forall {A} n (x : A) l l', aupdate n x l = Some l' -> alookup n l' = Some x.
+  Proof.
+    induction l as [|[m y] tl IH]; intros l' H; [discriminate|]. cbn in H.
+    destruct (m =? n) eqn:E.
+    - inv H. cbn. rewrite E. reflexivity.
+    - destruct (aupdate n x tl) as [tl'|]; [|discriminate]. inv H. cbn. rewrite E. apply IH. reflexivity.
+  Qed.
+  Lemma alookup_aput_front : forall {A} n (x : A) l, alookup n (aput_front n x l) = Some x.
+  Proof.
+    intros. unfold aput_front. destruct (aupdate n x l) as [l'|] eqn:E.
+    - eapply alookup_aupdate. exact E.
+    - cbn. rewrite N.eqb_refl. reflexivity.
+  Qed.
+
+  (* the snapshot file name must not go backwards: second-granular clock, non-decreasing *)
+  Definition ts_ok (d : disk) (ts : N) : Prop :=
+    match d_snap d with [] => True | (t0, _) :: _ => t0 <= ts end.
+
+  Lemma sorted_desc_head_bound : forall (l : list (N * bytes)) t0 b0 p,
+    StronglySorted (fun a b => fst b < fst a) ((t0, b0) :: l) -> In p l -> fst p < t0.
+  Proof. intros l t0 b0 p H Hi. inv H. rewrite Forall_forall in H3. exact (H3 p Hi). Qed.
+
+  (* installing a new newest snapshot *)
+  Lemma aput_front_newest : forall (l : list (N * bytes)) ts x, StronglySorted (fun a b => fst b < fst a) l ->
+    match l with [] => True | (t0, _) :: _ => t0 <= ts end ->
+    exists tl, aput_front ts x l = (ts, x) :: tl /\ StronglySorted (fun a b => fst b < fst a) ((ts, x) :: tl) /\
+               (forall p, In p tl -> In p l).
+  Proof.
+    intros l ts x Hs Hts. destruct l as [|[t0 b0] tl].
+    - exists []. cbn. repeat split; [repeat constructor | intros p []].
+    - destruct (N.eq_dec t0 ts) as [-> | Hne].
+      + exists tl. unfold aput_front. cbn. rewrite N.eqb_refl. repeat split.
+        * inv Hs. constructor; assumption.
+        * intros p Hp. right. exact Hp.
+      + exists ((t0, b0) :: tl). unfold aput_front.
+        rewrite aupdate_none.
+        * repeat split; [|intros p Hp; exact Hp]. constructor; [exact Hs|].
+          constructor; [cbn; lia|]. apply Forall_forall. intros p Hp. cbn.
+          pose proof (sorted_desc_head_bound tl t0 b0 p Hs Hp). lia.
+        * intros p [<- | Hp]; cbn; [exact Hne|].
+          pose proof (sorted_desc_head_bound tl t0 b0 p Hs Hp). lia.
+  Qed.
+
+  Lemma step_install_snapshot : forall d M C mem ts file h st' t,
+    DInvG d M C t -> ts_ok d ts -> read d (FTmp ts) = Some file ->
+    snap_valid file = Some (h, st') -> st' ≈ mem -> mem ≈ M -> h_txid h = C ->
+    DInvG (exec1 d (ARename (FTmp ts) (FSnap ts))) M C t /\
+    (exists tl, d_snap (exec1 d (ARename (FTmp ts) (FSnap ts))) = (ts, file) :: tl /\ forall p, In p tl -> In p (d_snap d)).
+  Proof.
+    intros d M C mem ts file h st' t [R [ew [S0 [cs [Hl [Hs [Hc [Hsort [Hb Hcs]]]]]]]]] Hts Hrd Hv He Hm Hc'.
+    cbn [exec1]. rewrite Hrd. cbn [unlink write d_wal d_rot d_snap d_tmp].
+    destruct Hs as [Hss Hsh].
+    destruct (aput_front_newest (d_snap d) ts file Hss Hts) as [tl [Heq [Hs' Hin]]].
+    split; [|exists tl; split; [exact Heq | exact Hin]].
+    exists R, ew, st', C. unfold LogShape, SnapShape in *. cbn [d_wal d_rot d_snap]. rewrite Heq.
+    split; [exact Hl|]. split; [split; [exact Hs' | exists h; auto]|]. split; [|split; [exact Hsort | split; [exact Hb | lia]]].
+    destruct Hc as [X [L0 [E1 [E2 [HE [HS [H1 [H2 HM]]]]]]]].
+    exists X, L0, (all_entries R ew), []. rewrite app_nil_r. repeat split.
+    - eapply steq_trans; [exact He|]. eapply steq_trans; [exact Hm | exact HM].
+    - exact Hb.
+    - constructor.
+    - exact HM.
+  Qed.
+
+  (* after the new snapshot is installed it holds the whole committed state *)
+  Definition DInvFull (d : disk) (M : state) (C : N) (t : bytes) : Prop :=
+    exists R ew S0 X L0,
+      LogShape d R ew t /\ SnapShape d S0 C /\ S0 ≈ apply_changes X (L0 ++ effs (all_entries R ew)) /\ M ≈ S0 /\
+      StronglySorted (fun a b => e_txid a < e_txid b) (all_entries R ew) /\
+      Forall (fun e => e_txid e <= C) (all_entries R ew).
+
+  Lemma DInvFull_DInvG : forall d M C t, DInvFull d M C t -> DInvG d M C t.
+  Proof.
+    intros d M C t [R [ew [S0 [X [L0 [Hl [Hs [HS [HM [Hsort Hb]]]]]]]]]].
+    exists R, ew, S0, C. split; [exact Hl|]. split; [exact Hs|]. split; [|split; [exact Hsort | split; [exact Hb | lia]]].
+    exists X, L0, (all_entries R ew), []. rewrite app_nil_r. repeat split; try assumption; try constructor.
+    eapply steq_trans; eassumption.
+  Qed.
+
+  Lemma step_install_snapshot_full : forall d M C mem ts file h st' t,
+    DInvG d M C t -> ts_ok d ts -> read d (FTmp ts) = Some file ->
+    snap_valid file = Some (h, st') -> st' ≈ mem -> mem ≈ M -> h_txid h = C ->
+    DInvFull (exec1 d (ARename (FTmp ts) (FSnap ts))) M C t /\
+    d_rot (exec1 d (ARename (FTmp ts) (FSnap ts))) = d_rot d /\
+    (exists tl, d_snap (exec1 d (ARename (FTmp ts) (FSnap ts))) = (ts, file) :: tl /\ forall p, In p tl -> In p (d_snap d)).
+  Proof.
+    intros d M C mem ts file h st' t [R [ew [S0 [cs [Hl [Hs [Hc [Hsort [Hb Hcs]]]]]]]]] Hts Hrd Hv He Hm Hc'.
+    cbn [exec1]. rewrite Hrd. cbn [unlink write d_wal d_rot d_snap d_tmp].
+    destruct Hs as [Hss Hsh].
+    destruct (aput_front_newest (d_snap d) ts file Hss Hts) as [tl [Heq [Hs' Hin]]].
+    split; [|split; [reflexivity | exists tl; split; [exact Heq | exact Hin]]].
+    destruct Hc as [X [L0 [E1 [E2 [HE [HS [H1 [H2 HM]]]]]]]].
+    exists R, ew, st', X, L0. unfold LogShape, SnapShape in *. cbn [d_wal d_rot d_snap]. rewrite Heq.
+    split; [exact Hl|]. split; [split; [exact Hs' | exists h; auto]|].
+    split; [eapply steq_trans; [exact He|]; eapply steq_trans; [exact Hm | exact HM]|].
+    split; [eapply steq_trans; [apply steq_sym; exact Hm | apply steq_sym; exact He]|].
+    split; assumption.
+  Qed.
+
+  Lemma aremove_head_sorted : forall (R : list (N * list entry)) n F,
+    StronglySorted (fun a b => fst a < fst b) ((n, F) :: R) -> aremove n (rot_bytes ((n, F) :: R)) = rot_bytes R.
+  Proof.
+    intros R n F H. inv H. unfold aremove. cbn [rot_bytes map filter fst]. rewrite N.eqb_refl. cbn [negb].
+    fold (rot_bytes R). rewrite Forall_forall in H3.
+    assert (Hall : forall p, In p (rot_bytes R) -> negb (fst p =? n) = true).
+    { intros p Hp. unfold rot_bytes in Hp. apply in_map_iff in Hp as [q [<- Hq]]. cbn. specialize (H3 q Hq). cbn in H3.
+      apply negb_true_iff. apply N.eqb_neq. lia. }
+    induction (rot_bytes R) as [|p tl IH]; [reflexivity|]. cbn [filter]. rewrite (Hall p (or_introl eq_refl)).
+    f_equal. apply IH. intros q Hq. apply Hall. right. exact Hq.
+  Qed.
+
+  Lemma sorted_app_r : forall {A} (P : A -> A -> Prop) a b, StronglySorted P (a ++ b) -> StronglySorted P b.
+  Proof. intros A P a b H. induction a as [|x a IH]; [exact H|]. inv H. apply IH. assumption. Qed.
+
+  (* removing the oldest rotated log once the snapshot covers it *)
+  Lemma step_unlink_first : forall d M C t n b tl, DInvFull d M C t -> d_rot d = (n, b) :: tl ->
+    DInvFull (exec1 d (AUnlink (FRot n))) M C t /\ d_rot (exec1 d (AUnlink (FRot n))) = tl /\
+    d_snap (exec1 d (AUnlink (FRot n))) = d_snap d.
+  Proof.
+    intros d M C t n b tl [R [ew [S0 [X [L0 [Hl [Hs [HS [HM [Hsort Hb]]]]]]]]]] Hrot.
+    destruct Hl as [Hr [HRs [Hw [Ht Hg]]]]. rewrite Hr in Hrot.
+    destruct R as [|[n' F] R']; [discriminate|]. cbn [rot_bytes map fst snd] in Hrot. inv Hrot.
+    pose proof (aremove_head_sorted R' n F HRs) as Hrem.
+    cbn [exec1 unlink d_rot d_snap d_wal]. rewrite Hr, Hrem. split; [|split; reflexivity].
+    assert (Hall : all_entries ((n, F) :: R') ew = F ++ all_entries R' ew).
+    { unfold all_entries. cbn. rewrite app_assoc. reflexivity. }
+    rewrite Hall in *.
+    exists R', ew, S0, X, (L0 ++ effs F). unfold LogShape, SnapShape in *. cbn [d_wal d_rot d_snap].
+    split; [|split; [exact Hs|]].
+    - split; [reflexivity|]. split; [inv HRs; assumption|]. split; [exact Hw|]. split; [exact Ht|].
+      apply Forall_app in Hg. tauto.
+    - split; [rewrite <- app_assoc, <- effs_app; exact HS|]. split; [exact HM|].
+      split; [eapply sorted_app_r; exact Hsort | apply Forall_app in Hb; tauto].
+  Qed.
+
+  (* removing a snapshot other than the newest *)
+  Lemma step_unlink_snap : forall d M C t ts' t0 b0 tl, DInvFull d M C t -> d_snap d = (t0, b0) :: tl -> ts' <> t0 ->
+    DInvFull (exec1 d (AUnlink (FSnap ts'))) M C t /\
+    d_snap (exec1 d (AUnlink (FSnap ts'))) = (t0, b0) :: aremove ts' tl /\
+    d_rot (exec1 d (AUnlink (FSnap ts'))) = d_rot d.
+  Proof.
+    intros d M C t ts' t0 b0 tl [R [ew [S0 [X [L0 [Hl [Hs [HS H]]]]]]]] Hsn Hne.
+    cbn [exec1 unlink d_rot d_snap d_wal]. rewrite Hsn. unfold aremove at 1 2. cbn [filter fst].
+    replace (t0 =? ts') with false by (symmetry; apply N.eqb_neq; congruence). cbn [negb].
+    split; [|split; reflexivity].
+    exists R, ew, S0, X, L0. unfold LogShape, SnapShape in *. cbn [d_wal d_rot d_snap].
+    rewrite Hsn in Hs. destruct Hs as [Hss Hh].
+    split; [exact Hl|]. split; [|split; [exact HS | exact H]].
+    split; [|exact Hh]. inv Hss. constructor.
+    - clear - H2. induction H2 as [|x l Hs IH Hf]; [constructor|]. cbn [filter].
+      destruct (negb (fst x =? ts')); [|exact IH]. constructor; [exact IH|].
+      rewrite Forall_forall in *. intros y Hy. apply filter_In in Hy as [Hy _]. exact (Hf y Hy).
+    - rewrite Forall_forall in *. intros y Hy. apply filter_In in Hy as [Hy _]. exact (H3 y Hy).
+  Qed.
+
+  (* ---- the whole checkpoint *)
+  Lemma fold_deser_sers : forall F m,
+    fold_left (fun m f => match deser f with Some e => N.max m (e_txid e) | None => m end) (map ser F) m = max_txid m F.
+  Proof. induction F as [|e tl IH]; intro m; [reflexivity|]. cbn [map fold_left]. rewrite Hser. apply IH. Qed.
+  Lemma wal_max_txid_fbytes : forall F, wal_max_txid deser (fbytes F) = Some (max_txid 0 F).
+  Proof.
+    intro F. unfold wal_max_txid, fbytes. rewrite parse_frames_exact by apply small_sers. rewrite fold_deser_sers. reflexivity.
+  Qed.
+
+  Definition tmp_only (a : action) : Prop :=
+    match a with
+    | AAppend (FTmp _) _ | ACreateTrunc (FTmp _) | ACreate (FTmp _) | AUnlink (FTmp _) | ATrunc (FTmp _) _ => True
+    | _ => False
+    end.
+  Lemma exec1_tmp_only : forall d a, tmp_only a ->
+    d_wal (exec1 d a) = d_wal d /\ d_rot (exec1 d a) = d_rot d /\ d_snap (exec1 d a) = d_snap d.
+  Proof.
+    intros d a H. destruct a as [f x | f | f | f n | f g | f]; try destruct f; cbn in H; try contradiction; cbn [exec1 read].
+    - destruct (alookup ts (d_tmp d)); cbn; auto.
+    - destruct (alookup ts (d_tmp d)); cbn; auto.
+    - cbn; auto.
+    - destruct (alookup ts (d_tmp d)); cbn; auto.
+    - cbn; auto.
+  Qed.
+  Lemma exec_tmp_only : forall acts d, Forall tmp_only acts ->
+    d_wal (exec d acts) = d_wal d /\ d_rot (exec d acts) = d_rot d /\ d_snap (exec d acts) = d_snap d.
+  Proof.
+    induction acts as [|a tl IH]; intros d H; [auto|]. inv H. cbn [exec fold_left].
+    destruct (IH (exec1 d a) H3) as [A [B C0]]. destruct (exec1_tmp_only d a H2) as [A' [B' C']].
+    unfold exec in *. rewrite A, B, C0. auto.
+  Qed.
+
+  Lemma cut_no_append : forall acts a b, (forall f x, nth_error acts a <> Some (AAppend f x)) -> cut acts a b = firstn a acts.
+  Proof.
+    intros acts a b H. unfold cut. destruct (nth_error acts a) as [[f x| | | | | ]|] eqn:E; try apply app_nil_r.
+    exfalso. exact (H f x eq_refl).
+  Qed.
+
+  Lemma exec_app : forall d a b, exec d (a ++ b) = exec (exec d a) b.
+  Proof. intros. unfold exec. apply fold_left_app. Qed.
+
+  Lemma unlink_all_rot : forall R d M C t k, DInvFull d M C t -> d_rot d = rot_bytes R ->
+    DInvFull (exec d (firstn k (map (fun p : N * bytes => AUnlink (FRot (fst p))) (rot_bytes R)))) M C t /\
+    d_snap (exec d (firstn k (map (fun p : N * bytes => AUnlink (FRot (fst p))) (rot_bytes R)))) = d_snap d.
+  Proof.
+    induction R as [|[n F] R' IH]; intros d M C t k HI Hr; cbn [rot_bytes map].
+    - rewrite firstn_nil. cbn. auto.
+    - destruct k as [|k]; [cbn; auto|]. cbn [firstn exec fold_left fst].
+      destruct (step_unlink_first d M C t n (fbytes F) (rot_bytes R') HI Hr) as [H1 [H2 H3]].
+      destruct (IH (exec1 d (AUnlink (FRot n))) M C t k H1 H2) as [H4 H5].
+      split; [exact H4 | etransitivity; [exact H5 | exact H3]].
+  Qed.
+
+  Lemma unlink_snaps : forall keys d M C t ts file tl k, DInvFull d M C t -> d_snap d = (ts, file) :: tl ->
+    Forall (fun x => x <> ts) keys ->
+    DInvFull (exec d (firstn k (map (fun x => AUnlink (FSnap x)) keys))) M C t.
+  Proof.
+    induction keys as [|x keys IH]; intros d M C t ts file tl k HI Hs Hk; cbn [map].
+    - rewrite firstn_nil. exact HI.
+    - destruct k as [|k]; [exact HI|]. inv Hk. cbn [firstn exec fold_left].
+      destruct (step_unlink_snap d M C t x ts file tl HI Hs H1) as [H3 [H4 _]].
+      exact (IH _ M C t ts file _ k H3 H4 H2).
+  Qed.
+
+  Lemma filter_all : forall {A} (f : A -> bool) l, (forall x, In x l -> f x = true) -> filter f l = l.
+  Proof.
+    induction l as [|x tl IH]; intro H; [reflexivity|]. cbn. rewrite (H x (or_introl eq_refl)).
+    f_equal. apply IH. intros y Hy. apply H. right. exact Hy.
+  Qed.
+
+  Lemma skipn_sorted_tail_keys : forall (l : list (N * bytes)) ts x n p, (0 < n)%nat ->
+    StronglySorted (fun a b => fst b < fst a) ((ts, x) :: l) -> In p (skipn n ((ts, x) :: l)) -> fst p <> ts.
+  Proof.
+    intros l ts x n p Hn Hs Hi. destruct n; [lia|]. cbn in Hi.
+    assert (In p l) by (rewrite <- (firstn_skipn n l); apply in_or_app; right; exact Hi).
+    pose proof (sorted_desc_head_bound l ts x p Hs H). lia.
+  Qed.
+
+  Lemma exec_unlinks_wal : forall us d, Forall (fun u => exists f, u = AUnlink f /\ f <> FWal) us ->
+    d_wal (exec d us) = d_wal d.
+  Proof.
+    induction us as [|u us IH]; intros d H; [reflexivity|]. inv H. destruct H2 as [f [-> Hf]].
+    cbn [exec fold_left]. unfold exec in IH. rewrite IH by assumption. destruct f; cbn; congruence.
+  Qed.
+
+  (* every crash cut of a checkpoint leaves the committed state and the counter bound alone *)
+  Lemma checkpoint_cuts : forall d w M ts a b, WInv d w M -> ts_ok d ts ->
+    let acts := fst (op_actions d w (OCheckpoint ts)) in
+    DInv (exec d (cut acts a b)) M (w_ctr w) /\
+    DInvG (exec d acts) M (w_ctr w) [] /\ d_wal (exec d acts) = d_wal d.
+  Proof.
+    intros d w M ts a b [HI [[y Hy] Hm]] Hts.
+    destruct (snap_file_valid (w_mem w) ts (w_ctr w)) as [st' [Hv [He Htx]]].
+    cbn [Wal.op_actions fst].
+    set (data := enc_map (w_mem w)) in *.
+    set (h0 := mkHdr WAL_VERSION ts (w_ctr w) (len (w_mem w)) (len data) []) in *.
+    set (h := mkHdr WAL_VERSION ts (w_ctr w) (len (w_mem w)) (len data) (mac (snap_fields h0 data))) in *.
+    set (pre := [ACreateTrunc (FTmp ts); AAppend (FTmp ts) (frame (ser_hdr h)); AAppend (FTmp ts) data]).
+    set (rn := ARename (FTmp ts) (FSnap ts)).
+    pose proof HI as HI0.
+    destruct HI as [R [ew [S0 [cs [Hl [Hs [Hc [Hsort [Hb Hcs]]]]]]]]].
+    assert (Hrot : d_rot d = rot_bytes R) by (destruct Hl; assumption).
+    assert (HRs : StronglySorted (fun a b => fst a < fst b) R) by (destruct Hl as [_ [? _]]; assumption).
+    (* all rotated logs are covered *)
+    assert (Hdead : filter (fun p : N * bytes => match wal_max_txid deser (snd p) with Some m => m <=? w_ctr w | None => false end)
+                      (sort_asc (d_rot d)) = rot_bytes R).
+    { rewrite Hrot, rot_bytes_sorted by assumption. apply filter_all. intros p Hp.
+      unfold rot_bytes in Hp. apply in_map_iff in Hp as [q [<- Hq]]. cbn [snd]. rewrite wal_max_txid_fbytes.
+      apply N.leb_le. apply max_txid_bound; [lia|]. unfold all_entries in Hb. apply Forall_app in Hb as [Hb1 _].
+      apply Forall_forall. intros e Hin. rewrite Forall_forall in Hb1. apply Hb1. apply in_concat.
+      exists (snd q). split; [apply in_map; exact Hq | exact Hin]. }
+    rewrite Hdead.
+    set (U1 := map (fun p : N * bytes => AUnlink (FRot (fst p))) (rot_bytes R)).
+    set (keys := map fst (drop_n WAL_SNAPSHOT_RETENTION (sort_desc (aput_front ts [] (d_snap d))))).
+    match goal with |- context [U1 ++ ?X] => set (U2raw := X) end.
+    assert (HU2 : U2raw = map (fun x => AUnlink (FSnap x)) keys) by (unfold U2raw, keys; rewrite map_map; reflexivity).
+    rewrite HU2. clear HU2 U2raw.
+    set (U2 := map (fun x => AUnlink (FSnap x)) keys).
+    (* the names to prune never include the new snapshot *)
+    assert (Hkeys : Forall (fun x => x <> ts) keys).
+    { destruct Hs as [Hss _]. destruct (aput_front_newest (d_snap d) ts [] Hss Hts) as [tl0 [Heq [Hs0 _]]].
+      unfold keys. unfold bytes in *. rewrite Heq, snaps_sorted by exact Hs0. apply Forall_forall. intros x Hx.
+      apply in_map_iff in Hx as [p [<- Hp]]. unfold drop_n in Hp.
+      apply (skipn_sorted_tail_keys tl0 ts [] (N.to_nat WAL_SNAPSHOT_RETENTION) p); [vm_compute; lia | exact Hs0 | exact Hp]. }
+    (* state after the three writes to the temporary file *)
+    assert (Hpre : Forall tmp_only pre) by (repeat constructor).
+    assert (Hrd : read (exec d pre) (FTmp ts) = Some (snap_file h data)).
+    { unfold pre, Wal.snap_file. cbn [exec fold_left exec1 read write d_tmp].
+      repeat (rewrite (@alookup_aput_front bytes ts); cbn [app]). reflexivity. }
+    destruct (exec_tmp_only pre d Hpre) as [Hw1 [Hr1 Hs1]].
+    assert (HI1 : DInvG (exec d pre) M (w_ctr w) []) by (apply (DInvG_same_files d); assumption).
+    assert (Hts1 : ts_ok (exec d pre) ts) by (unfold ts_ok; rewrite Hs1; exact Hts).
+    destruct (step_install_snapshot_full (exec d pre) M (w_ctr w) (w_mem w) ts _ h st' [] HI1 Hts1 Hrd Hv He Hm Htx)
+      as [HF2 [Hr2 [tl2 [Hs2 _]]]].
+    set (d2 := exec1 (exec d pre) rn) in *.
+    assert (Hrot2 : d_rot d2 = rot_bytes R) by (unfold d2, rn; rewrite Hr2, Hr1; exact Hrot).
+    (* any number of the clean-up steps *)
+    assert (Hclean : forall k, DInvFull (exec d2 (firstn k (U1 ++ U2))) M (w_ctr w) []).
+    { intro k. rewrite firstn_app, exec_app.
+      destruct (unlink_all_rot R d2 M (w_ctr w) [] k HF2 Hrot2) as [H3 H4]. fold U1 in H3, H4.
+      apply (unlink_snaps keys _ M (w_ctr w) [] ts (snap_file h data) tl2); [exact H3 | rewrite H4; exact Hs2 | exact Hkeys]. }
+    assert (Hunl : Forall (fun u => exists f, u = AUnlink f /\ f <> FWal) (U1 ++ U2)).
+    { apply Forall_forall. intros u Hu. apply in_app_or in Hu as [Hu | Hu]; unfold U1, U2 in Hu;
+        apply in_map_iff in Hu as [q [<- _]]; eexists; split; try reflexivity; discriminate. }
+    assert (Hwal : forall k, d_wal (exec d2 (firstn k (U1 ++ U2))) = d_wal d).
+    { intro k. assert (Hw2 : d_wal d2 = d_wal d) by (unfold d2, rn; cbn [exec1]; rewrite Hrd; cbn; exact Hw1).
+      rewrite <- Hw2. apply exec_unlinks_wal. apply Forall_forall. intros u Hu. rewrite Forall_forall in Hunl. apply Hunl.
+      rewrite <- (firstn_skipn k (U1 ++ U2)). apply in_or_app. left. exact Hu. }
+    assert (Hacts : forall k, exec d (pre ++ rn :: firstn k (U1 ++ U2)) = exec d2 (firstn k (U1 ++ U2))).
+    { intro k. rewrite exec_app. reflexivity. }
+    split; [|split].
+    - change (DInv (exec d (cut (pre ++ rn :: U1 ++ U2) a b)) M (w_ctr w)).
+      destruct a as [|[|[|[|k]]]].
+      + cbn. eapply DInvG_DInv. exact HI0.
+      + assert (Ht : Forall tmp_only (cut (pre ++ rn :: U1 ++ U2) 1 b)) by (cbn [cut firstn nth_error app pre]; destruct b; repeat constructor).
+        destruct (exec_tmp_only _ d Ht) as [A1 [A2 A3]]. eapply DInvG_DInv. apply (DInvG_same_files d); eassumption.
+      + assert (Ht : Forall tmp_only (cut (pre ++ rn :: U1 ++ U2) 2 b)) by (cbn [cut firstn nth_error app pre]; destruct b; repeat constructor).
+        destruct (exec_tmp_only _ d Ht) as [A1 [A2 A3]]. eapply DInvG_DInv. apply (DInvG_same_files d); eassumption.
+      + assert (Ht : Forall tmp_only (cut (pre ++ rn :: U1 ++ U2) 3 b)) by (cbn [cut firstn nth_error app pre]; repeat constructor).
+        destruct (exec_tmp_only _ d Ht) as [A1 [A2 A3]]. eapply DInvG_DInv. apply (DInvG_same_files d); eassumption.
+      + rewrite cut_no_append.
+        * change (firstn (S (S (S (S k)))) (pre ++ rn :: U1 ++ U2)) with (pre ++ rn :: firstn k (U1 ++ U2)).
+          rewrite Hacts. eapply DInvG_DInv. apply DInvFull_DInvG. apply Hclean.
+        * intros f x E. change (nth_error (pre ++ rn :: U1 ++ U2) (S (S (S (S k))))) with (nth_error (U1 ++ U2) k) in E.
+          apply nth_error_In in E. rewrite Forall_forall in Hunl. destruct (Hunl _ E) as [g [Hg _]]. discriminate.
+    - change (DInvG (exec d (pre ++ rn :: U1 ++ U2)) M (w_ctr w) []).
+      rewrite <- (firstn_all (U1 ++ U2)), Hacts. apply DInvFull_DInvG. apply Hclean.
+    - change (d_wal (exec d (pre ++ rn :: U1 ++ U2)) = d_wal d).
+      rewrite <- (firstn_all (U1 ++ U2)), Hacts. apply Hwal.
+  Qed.
+
   (* the empty directory, once state.wal has been created *)
   Lemma WInv_init : WInv (exec disk0 [ACreate FWal]) (mkW [] 0 0 0) [].
   Proof.
